@@ -7,8 +7,9 @@ package main
 // missing / read-only TMPDIR, zero non-zeros, cancellation at the k-th row.
 
 import (
-	"fmt"
 	"context"
+	"fmt"
+	trustmatrixpb "k3l.io/go-eigentrust/pkg/api/pb/trustmatrix"
 	"os"
 	"path/filepath"
 	"reflect"
@@ -83,7 +84,153 @@ func gcSettle() {
 	}
 }
 
-func runC12(h *H) { runC12As(h, "C12", h.budget(150, 1500), false) }
+func runC12(h *H) {
+	runC12As(h, "C12", h.budget(150, 1500), false)
+	runC12Server(h, h.budget(40, 600))
+}
+
+// runC12Server: histories on the SERVERS' stores ("servers swap out after every update"): replace / merge / delete /
+// read of stored local trust through the OpenAPI handlers and through the gRPC trust-matrix service.  After every call
+// (and a GC, since replaced matrices are released by their finalizer) the process may hold at most one swap-file
+// mapping per stored matrix and no temporary file; after deleting everything and dropping the server, none.
+//
+//	C12 srv <oapi|grpc> <nsteps> ( <op> <id> | <code> <stored> <maplines> <tmpfiles> )* end <leakedMaps> <tmpfiles>
+func runC12Server(h *H, nh int) {
+	g := h.g
+	bdir := os.Getenv("VERIF_BUILD")
+	if bdir == "" {
+		bdir = "/verif/.build"
+	}
+	tmp := filepath.Join(bdir, "swaptmp-srv")
+	os.RemoveAll(tmp)
+	os.MkdirAll(tmp, 0o755)
+	defer os.RemoveAll(tmp)
+	oldTmp := os.Getenv("TMPDIR")
+	os.Setenv("TMPDIR", tmp)
+	defer os.Setenv("TMPDIR", oldTmp)
+	wd := 20 * time.Second
+	ids := []string{"a", "b"}
+	settleTo := func(base, want int) int {
+		gcSettle()
+		for dl := time.Now().Add(3 * time.Second); swapMapLines()-base > want && time.Now().Before(dl); {
+			gcSettle()
+		}
+		return swapMapLines() - base
+	}
+	for k := 0; k < nh; k++ {
+		gcSettle()
+		gcSettle()
+		base := swapMapLines()
+		kind := "oapi"
+		if k%3 == 2 {
+			kind = "grpc"
+		}
+		steps := g.intn(h.budget(10, 40)) + 2
+		w := &W{}
+		stored := map[string]bool{}
+		done := 0
+		if kind == "oapi" {
+			env := newOapiEnv()
+			for s := 0; s < steps; s++ {
+				done++
+				id := ids[g.intn(len(ids))]
+				op := g.pick("put", "put", "put", "merge", "merge", "delete", "get", "put-empty", "compute")
+				var res httpRes
+				switch op {
+				case "put", "put-empty", "merge":
+					m := g.inlineMatrix(g.intn(5)+1, false)
+					if op == "put-empty" {
+						m = mRef{kind: "inline", size: g.intn(4) + 1}
+					}
+					path := "/local-trust/" + id
+					if op == "merge" {
+						path += "?merge=true"
+					}
+					res = env.do("PUT", path, mustJSON(m.json()), wd)
+					if res.status == 200 || res.status == 201 {
+						stored[id] = true
+					}
+				case "delete":
+					res = env.do("DELETE", "/local-trust/"+id, nil, wd)
+					if res.status >= 200 && res.status < 300 {
+						delete(stored, id)
+					}
+				case "get":
+					res = env.do("GET", "/local-trust/"+id, nil, wd)
+				case "compute":
+					r := g.validOReq(false)
+					r.lt = mRef{kind: "stored", id: id}
+					res = env.compute(r, wd)
+				}
+				g.count("srv-op:" + op)
+				code := fmt.Sprint(res.status)
+				if res.outcome != "" {
+					code = res.outcome
+				}
+				maps := settleTo(base, len(stored))
+				w.Str(op).Str(id).Bar().Str(code).Int(len(stored)).Int(maps).Int(tmpFiles(tmp))
+			}
+			for id := range stored {
+				env.do("DELETE", "/local-trust/"+id, nil, wd)
+			}
+			env = nil
+		} else {
+			env := newGrpcEnv()
+			for s := 0; s < steps; s++ {
+				done++
+				id := ids[g.intn(len(ids))]
+				op := g.pick("create", "update", "update", "update", "flush", "delete", "get")
+				ctx, cancel := context.WithTimeout(context.Background(), wd)
+				var err error
+				switch op {
+				case "create":
+					_, err = env.tm.Create(ctx, &trustmatrixpb.CreateRequest{Id: id})
+					if err == nil {
+						stored[id] = true
+					}
+				case "update":
+					var es []*trustmatrixpb.Entry
+					for i := g.intn(6); i >= 0; i-- {
+						es = append(es, &trustmatrixpb.Entry{Truster: fmt.Sprint(g.intn(5)), Trustee: fmt.Sprint(g.intn(5)), Value: float64(g.intn(9)) / 2})
+					}
+					_, err = env.tm.Update(ctx, &trustmatrixpb.UpdateRequest{Header: &trustmatrixpb.Header{Id: &id, TimestampQwords: []uint64{uint64(s + 1)}}, Entries: es})
+				case "flush":
+					_, err = env.tm.Flush(ctx, &trustmatrixpb.FlushRequest{Id: id})
+				case "delete":
+					_, err = env.tm.Delete(ctx, &trustmatrixpb.DeleteRequest{Id: id})
+					if err == nil {
+						delete(stored, id)
+					}
+				case "get":
+					if st, e := env.tm.Get(ctx, &trustmatrixpb.GetRequest{Id: id}); e != nil {
+						err = e
+					} else {
+						for {
+							if _, e := st.Recv(); e != nil {
+								break
+							}
+						}
+					}
+				}
+				cancel()
+				g.count("srv-op:grpc-" + op)
+				maps := settleTo(base, len(stored))
+				w.Str(op).Str(id).Bar().Str(codeTok(err)).Int(len(stored)).Int(maps).Int(tmpFiles(tmp))
+			}
+			cctx, cancel := context.WithTimeout(context.Background(), wd)
+			for id := range stored {
+				_, _ = env.tm.Delete(cctx, &trustmatrixpb.DeleteRequest{Id: id})
+			}
+			cancel()
+			env.close()
+			env = nil
+		}
+		leaked := settleTo(base, 0)
+		h.n++
+		lw := (&W{}).Str(fmt.Sprintf("C12-%d", h.n)).Str("C12").Str("srv")
+		h.emit(lw.Str(kind).Int(done).Str(w.String()).Str("end").Int(leaked).Int(tmpFiles(tmp)))
+	}
+}
 
 // runC12As runs swap-out histories; for C07 (cancellation of Mmap must leave the matrix intact) the operations
 // are biased towards swap-out / modification / cancelled swap-out and the case ids carry the C07 prefix
